@@ -95,8 +95,23 @@ def interp_case(ctx, qs, ss, st, en, sc):
     vals = [(3 * i * i + 1) % 17 for i in range(len(ss))]
     b = nap.Tsd(farr(ss, sc), np.array(vals, dtype=float), time_support=full)
     ep = iset(st, en, sc)
-    r = b.interpolate(a, ep)
     iv = lambda t: next((k for k, (s, e) in enumerate(zip(st, en)) if s <= t <= e), None)
+    for variant in ("ep", "own-default", "own-explicit"):
+        _interp_variant(ctx, inp, variant, a, b, ep, qs, ss, vals, st, en, sc, iv)
+
+
+def _interp_variant(ctx, inp, variant, a, b, ep, qs, ss, vals, st, en, sc, iv):
+    inp = dict(inp, variant=variant)
+    if variant == "ep":
+        r = b.interpolate(a, ep)
+    else:
+        # the source lives ON the multi-interval support; ep omitted, or passed as the very same object
+        keep = [i for i, t in enumerate(ss) if iv(t) is not None]
+        if not keep:
+            return
+        ss = [ss[i] for i in keep]; vals = [vals[i] for i in keep]
+        b2 = nap.Tsd(farr(ss, sc), np.array(vals, dtype=float), time_support=ep)
+        r = b2.interpolate(a) if variant == "own-default" else b2.interpolate(a, b2.time_support)
     qin = [q for q in qs if iv(q) is not None]
     if ns_arr(r.t) != [q * sc for q in qin]:
         ctx.fail("oracle", "interpolate timestamps", inp, impl=ns_arr(r.t), expected=[q * sc for q in qin]); return
